@@ -11,62 +11,65 @@ Variable esz : N.
 Definition kfs (s : stk) : nat -> fpr := fun i => if Nat.eqb i 0 then vfp esz (container s) else fp0.
 
 Lemma kstep_log st l o ls :
-  kinv st l -> vz (container (fst st)) -> TR ls (kfs (fst st)) (snd st) -> kref_pre l o ->
+  kinv st l -> vok 0 (container (fst st)) -> TR ls (kfs (fst st)) (NINST * snd st) -> kref_pre l o ->
   exists st' e ls', kstep esz st o = Ok (st', snd (kref_step l o), e) /\ ev_run ls e = Some ls' /\
-    kinv st' (fst (kref_step l o)) /\ vz (container (fst st')) /\ TR ls' (kfs (fst st')) (snd st').
+    kinv st' (fst (kref_step l o)) /\ vok 0 (container (fst st')) /\ TR ls' (kfs (fst st')) (NINST * snd st').
 Proof.
   intros H Z T P. destruct st as [[v] nb]. unfold kinv in *. cbn [fst snd container] in *.
-  pose proof (TR_nz _ _ _ T) as Nz.
+  pose proof (TR_nz _ _ _ T) as Nz. assert (Nb : nb <> 0) by (unfold NINST in Nz; lia).
   assert (F0 : kfs (mk_stk v) 0 = vfp esz v) by reflexivity.
   assert (Ext : forall v' j, kfs (mk_stk v') j = set_reg (kfs (mk_stk v)) 0 (vfp esz v') j).
   { intros v' j. unfold kfs, set_reg. cbn [container]. destruct (Nat.eqb j 0); reflexivity. }
   destruct o as [x|x| |]; cbn [kstep kref_step fst snd kref_pre] in *; unfold stk_push, stk_pop, stk_top; cbn [container].
-  1-2: (destruct (g_push esz ls _ nb 0 v l x T) as (l1 & E1 & T1); [lia | exact F0 | exact H | exact Z|];
-        rewrite (push_eq esz nb x v l H); cbn [bind]; do 3 eexists; split; [reflexivity|]; split; [exact E1|];
+  1-2: (destruct (g_push esz ls _ 0 nb 0 v l x T) as (l1 & E1 & T1); [lia | exact F0 | exact H | exact Z|];
+        rewrite (push_eq esz 0 nb x v l H); cbn [bind]; do 3 eexists; split; [reflexivity|]; split; [exact E1|];
         cbn [fst snd container]; split; [now apply pushed_inv|]; split;
-        [intros B; unfold pushed in *; cbn [v_blk v_cap] in *; now apply (vz_grown nb _ _ _ Nz Z) | eapply TR_ext; [|exact T1]; intros j; apply Ext]).
+        [apply (vok_same_blk _ (grown (enc 0 nb) (length l + 1) v l)); [reflexivity | reflexivity | now apply vok_grown]
+        | eapply TR_ext; [|exact T1]; intros j; apply Ext]).
   - destruct (exists_last P) as (l' & x & ->).
-    destruct (g_pop esz ls _ nb 0 v l' x T) as (l1 & E1 & T1); [lia | exact F0 | exact H|].
+    destruct (g_pop esz ls _ (NINST * nb) 0 v l' x T) as (l1 & E1 & T1); [lia | exact F0 | exact H|].
     rewrite (pop_eq v l' x H). cbn [bind]. rewrite removelast_last.
     do 3 eexists. split; [reflexivity|]. split; [exact E1|]. cbn [fst snd container].
-    split; [eapply popped_inv; exact H|]. split; [intros B; cbn [v_blk v_cap] in *; now apply Z|].
+    split; [eapply popped_inv; exact H|]. split; [apply (vok_same_blk _ v); [reflexivity | reflexivity | exact Z]|].
     eapply TR_ext; [|exact T1]. intros j. apply Ext.
   - destruct (exists_last P) as (l' & x & ->). rewrite (back_eq v l' x H). cbn [bind]. rewrite last_last.
     do 3 eexists. split; [reflexivity|]. split; [reflexivity|]. cbn [fst snd container]. auto.
 Qed.
 
 Lemma krun_log : forall ops st l ls,
-  kinv st l -> vz (container (fst st)) -> TR ls (kfs (fst st)) (snd st) -> kref_ok l ops ->
+  kinv st l -> vok 0 (container (fst st)) -> TR ls (kfs (fst st)) (NINST * snd st) -> kref_ok l ops ->
   exists st' e ls', krun esz st ops = Ok (st', snd (kref_run l ops), e) /\ ev_run ls e = Some ls' /\
-    kinv st' (fst (kref_run l ops)) /\ TR ls' (kfs (fst st')) (snd st').
+    kinv st' (fst (kref_run l ops)) /\ vok 0 (container (fst st')) /\ TR ls' (kfs (fst st')) (NINST * snd st').
 Proof.
   induction ops as [|o ops IH]; intros st l ls R Z T K.
-  - exists st, [], ls. split; [reflexivity|]. split; [reflexivity|]. split; assumption.
+  - exists st, [], ls. split; [reflexivity|]. split; [reflexivity|]. split; [exact R|]. split; assumption.
   - destruct K as [P K]. destruct (kstep_log st l o ls R Z T P) as (st1 & e1 & l1 & H1 & E1 & R1 & Z1 & T1).
     cbn [krun kref_run]. rewrite H1. cbn [bind].
     destruct (kref_step l o) as [la x] eqn:Es. cbn [fst snd] in *.
-    destruct (IH st1 la l1 R1 Z1 T1 K) as (st2 & e2 & l2 & H2 & E2 & R2 & T2). rewrite H2. cbn [bind].
+    destruct (IH st1 la l1 R1 Z1 T1 K) as (st2 & e2 & l2 & H2 & E2 & R2 & Z2 & T2). rewrite H2. cbn [bind].
     destruct (kref_run la ops) as [lb xs]. cbn [fst snd] in *.
-    exists st2, (e1 ++ e2), l2. split; [reflexivity|]. split; [rewrite (ev_run_app_some _ _ _ _ E1); exact E2|]. split; assumption.
+    exists st2, (e1 ++ e2), l2. split; [reflexivity|]. split; [rewrite (ev_run_app_some _ _ _ _ E1); exact E2|].
+    split; [exact R2|]. split; assumption.
 Qed.
 
 Theorem stack_log_wf : forall ops, kref_ok [] ops ->
   exists st outs e fin, krun esz (stk_empty, 1) ops = Ok (st, outs, e) /\ kfinish st = Ok fin /\ wf_closed (e ++ fin) = true.
 Proof.
   intros ops K.
-  assert (T0 : TR ls0 (kfs stk_empty) 1).
+  assert (T0 : TR ls0 (kfs stk_empty) (NINST * 1)).
   { assert (E : forall j, kfs stk_empty j = fp0) by (intros j; unfold kfs; destruct (Nat.eqb j 0); reflexivity).
     split; [|split].
     - eapply tracks_ext; [|apply (tracks_ls0 VK)]. intros j _. apply E.
-    - split; [lia|]. split.
-      + intros j _. rewrite E. apply fp_ok_fp0. lia.
+    - split; [unfold NINST; lia|]. split.
+      + intros j _. rewrite E. apply fp_ok_fp0. unfold NINST. lia.
       + intros i j _ _ _. rewrite !E. apply sep_fp0.
     - apply E. }
-  destruct (krun_log ops (stk_empty, 1) [] ls0 kinv0 vz_empty T0 K) as (st & e & l1 & H & E & R & T).
+  assert (Z0 : vok 0 (container (fst (stk_empty, 1)))) by (apply vok_empty; unfold NINST; lia).
+  destruct (krun_log ops (stk_empty, 1) [] ls0 kinv0 Z0 T0 K) as (st & e & l1 & H & E & R & Z & T).
   destruct st as [[v] nb]. unfold kinv in R. cbn [fst snd container] in *.
-  destruct (g_destruct esz l1 _ nb 0 v (fst (kref_run [] ops)) T) as (l2 & E2 & T2); [lia | reflexivity | exact R|].
+  destruct (g_destruct esz l1 _ 0 _ 0 v (fst (kref_run [] ops)) T) as (l2 & E2 & T2); [lia | reflexivity | exact R | apply Z|].
   exists (mk_stk v, nb), (snd (kref_run [] ops)), e. eexists. split; [exact H|]. split.
-  - unfold kfinish, stk_destruct. cbn [fst container]. apply (destruct_eq v _ R).
+  - unfold kfinish, stk_destruct. cbn [fst container]. apply (destruct_eq 0 v _ R).
   - destruct (tracks_all_empty VK l2) as (B & L).
     { destruct T2 as (T2 & _). eapply tracks_ext; [|exact T2]. intros j _. unfold set_reg, kfs. destruct (Nat.eqb j 0); reflexivity. }
     apply (wf_closed_of_run _ l2); [rewrite (ev_run_app_some _ _ _ _ E); exact E2 | exact B | exact L].
